@@ -32,15 +32,18 @@ pub struct Legacy {
 }
 
 fn gen_legacy(rng: &mut Rng) -> Legacy {
-    let np = match rng.below(4) {
+    let np = match rng.below(6) {
         0 => 0,
         1 => 1,
+        // more than any plausible page size, several times over
+        5 => rng.range(49, 160),
         _ => rng.range(2, 14),
     };
+    let consecutive = np > 40 && rng.chance(2, 3);
     let mut packets = vec![];
     let mut seq = rng.below(5);
     for _ in 0..np {
-        seq += 1 + rng.below(4);
+        seq += if consecutive { 1 } else { 1 + rng.below(4) };
         let st = rng.pick(&["sent", "ack_failure", "timed_out", "sent", "ack_success"]).to_string();
         let amt = match rng.below(4) {
             0 => 1,
@@ -219,7 +222,7 @@ fn legacy_cfg_0_4_18(rng: &mut Rng, sc: &Sc, v20: bool) -> Value {
         "liquid_stake_token_denom": sc.t,
         "treasury_address": addr32(&sc.cfg.prefix, "treasury-legacy"),
         "monitors": mons,
-        "validators": sc.validators,
+        "validators": if v20 && rng.chance(1, 6) { let mut v = sc.validators.clone(); v.insert(rng.below(v.len() as u64 + 1) as usize, addr20(&sc.cfg.native_prefix, "not-a-valoper")); v } else { sc.validators.clone() },
         "batch_period": rng.range(1, 1_000_000),
         "unbonding_period": rng.range(1, 3_000_000),
         "protocol_fee_config": {"dao_treasury_fee": (if rng.chance(1, 4) { 0 } else { rng.below128(100_001) }).to_string()},
@@ -303,8 +306,21 @@ pub fn check_old_paths(sc0: &Sc, rng: &mut Rng, acc: &mut Acc) -> Vec<String> {
         let before = sc.w.store_of(&q).clone();
         let msg = json!({"v0_4_20_to_v1_0_0": {"native_account_address_prefix": sc.cfg.native_prefix, "native_validator_address_prefix": sc.cfg.val_prefix, "native_token_denom": "utia", "protocol_account_address_prefix": sc.cfg.prefix}});
         let r = sc.w.migrate(&q, &msg.to_string());
+        let foreign_validator = old["validators"].as_array().map(|a| a.iter().any(|v| !matches!(crate::prim::bech32_decode(v.as_str().unwrap_or("")), Some((h, _, _)) if h == sc.cfg.val_prefix))).unwrap_or(false);
         if !r.panics.is_empty() {
             out.push(format!("migration 0.4.20 -> 1.0.0 panicked: {:?}", r.panics));
+        } else if foreign_validator {
+            // a stored validator that is not an address under the validator prefix named in the message: the
+            // newer layout cannot hold it, so either the migration is refused whole or the set is kept as it was
+            acc.count("c18:v1_0_0_foreign_validator");
+            if r.ok {
+                let kept = sc.qy(json!({"config": {}})).ok().and_then(|c| c.get("native_chain_config").and_then(|n| n.get("validators")).cloned()).unwrap_or(Value::Null);
+                if kept != old["validators"] {
+                    out.push(format!("0.4.20 -> 1.0.0 succeeded but altered the validator set: {} -> {kept}", old["validators"]));
+                }
+            } else if sc.w.store_of(&q) != &before {
+                out.push("refused 0.4.20 -> 1.0.0 migration changed storage".into());
+            }
         } else if !r.ok {
             out.push(format!("migration 0.4.20 -> 1.0.0 refused on a well-formed store: {}", r.err));
         } else {
@@ -375,7 +391,8 @@ pub fn check_gate(sc0: &Sc, acc: &mut Acc) -> Vec<String> {
                             st.m.insert(b"config".to_vec(), c.to_string().into_bytes());
                         }
                         "0.4.20" => {
-                            let c = legacy_cfg_0_4_18(&mut rng, sc0, true);
+                            let mut c = legacy_cfg_0_4_18(&mut rng, sc0, true);
+                            c["validators"] = json!(sc0.validators); // only the gate decides here
                             st.m.insert(b"config".to_vec(), c.to_string().into_bytes());
                         }
                         _ => {
